@@ -280,6 +280,19 @@ impl Property for C20 {
             }
         }
 
+        // the semicolon after the (last) CREATE TABLE of a text is optional as well
+        if case.select.is_none() && !case.tables.is_empty() {
+            let tokens = case.base_tokens();
+            if tokens.last().map(|t| t.text == ";").unwrap_or(false) {
+                let without = join_canonical(&tokens[..tokens.len() - 1]);
+                obs.inner += 1;
+                match parse_debug(&without) {
+                    Ok(v) if v == base => {}
+                    other => return Err(Failure::new("semicolon: create table", format!("`{}` (no trailing semicolon) vs `{}`: {:?}", without, base_text, other.err()))),
+                }
+            }
+        }
+
         // 3. literal fidelity
         let parsed = catch(|| sqlgrep::parsing::parse(&case.variant)).ok().and_then(|r| r.ok());
         if let Some(st) = parsed {
